@@ -174,6 +174,21 @@ def cases(rng, tier, feats, drv_ok):
                 out.append({'line': f'eval_comp {L} {ie} {C14.pi_tokens(pi)} {hexl([rng.felt() for _ in range(M)])} {hexl([rng.felt() for _ in range(N)])} '
                                     f'{hexf(rng.felt())} {hexf(tds)} {hexf(rng.felt())}',
                             'kind': f'{L}:composition:preamble', 'layout': L if iname is None else f'dynamic[{iname}]', 'fn': 'composition'})
+            # the SAME property one level up: unit coefficient vectors through the whole eval_composition_polynomial, on the shipped public
+            # input and on one whose builtin segments are all EMPTY (a program that uses no builtin: the instance still enables them) —
+            # every position of an enabled component must still contribute
+            en_w = enabled_positions(L, 'composition', dynv)
+            tag_w = L if iname is None else f'dynamic[{iname}]'
+            ie = ';'.join(f'{n}:{hexf(rng.felt())}' for n in ief)
+            mask = [rng.felt() for _ in range(M)]; pt, tg = rng.felt(), rng.felt()
+            nseg_fixed = 4   # program, execution, output, and the first builtin share the head of the segment table in every layout: empty everything after output
+            pi_empty = dict(pi, segs=[list(sg) if i < 3 else [sg[0], sg[0]] for i, sg in enumerate(pi['segs'])])
+            # (quick: a seeded sample of positions; every position in the thorough tier)
+            for shape, pv in (('shipped-segments', pi), ('empty-builtin-segments', pi_empty)):
+                for i in range(N):
+                    if tier == 'quick' and not (i % 17 == 5 or rng.chance(1, 12)): continue
+                    out.append({'line': f'eval_comp {L} {ie} {C14.pi_tokens(pv)} {hexl(mask)} {hexl([1 if j == i else 0 for j in range(N)])} {hexf(pt)} {hexf(1 << t)} {hexf(tg)}',
+                                'kind': f'{L}:composition:unit', 'layout': tag_w + '/whole:' + shape, 'fn': 'composition', 'unit': i, 'enabled': en_w.get(i), 'hxonly': not rng.chance(1, 10)})
     return out
 
 
